@@ -1,6 +1,7 @@
 """Enum declarations for C10: generation, rendering, gcc probe, cffi measurement in three modes.
 
-A declaration is {"id": str, "items": [{"name", "k": "explicit"|"implicit"|"ref", "v": int, "ref": int}]}
+A declaration is {"id": str, "items": [{"name", "k": "explicit"|"implicit"|"ref"|"char", "v": int, "ref": int,
+"sp": [codes of the source characters between the quotes of a character constant], "cneg": bool (-'c')}]}
 (python ints here; enc() turns them into the [neg, mag] limb form of specs/PlatformBV.tla for TLC).
 """
 import json, os, re, subprocess, sys
@@ -31,11 +32,48 @@ BOUNDARY = [-2**63, -2**63 + 1, -2**31 - 1, -2**31, -1, 0, 1, INT_MAX, INT_MAX +
             LONG_MAX, LONG_MAX + 1, ULONG_MAX]
 
 
+SIMPLE_ESC = {"'": 39, '"': 34, "?": 63, "\\": 92, "a": 7, "b": 8, "f": 12, "n": 10, "r": 13, "t": 9, "v": 11}
+PLAIN = [c for c in range(32, 127) if c not in (39, 92)]
+
+
+def char_value(sp):
+    """generator-side copy of Enum.CharValue (used only to stay inside the class and to pick queries; Trace_Enum
+    re-derives the values and reports "class:undefined" if this disagrees with the specification)"""
+    s = "".join(map(chr, sp))
+    if len(s) == 1:
+        n = ord(s)
+    elif s[1:] in SIMPLE_ESC:
+        n = SIMPLE_ESC[s[1:]]
+    elif s[1] == "x":
+        n = int(s[2:], 16)
+    else:
+        n = int(s[1:], 8)
+    return n - 256 if n >= 128 else n
+
+
+def random_char(rng):
+    """spelling of a random integer character constant: every simple escape sequence, octal escapes, plain
+    characters; with VERIF_C10_NUMESC=1 also octal escapes of 2-3 digits and hexadecimal escapes"""
+    r = rng.random()
+    if r < 0.45:
+        sp = "\\" + rng.choice(sorted(SIMPLE_ESC))
+    elif r < 0.60:
+        sp = "\\" + rng.choice("01234567")
+    elif r < 0.70 and os.environ.get("VERIF_C10_NUMESC") == "1":
+        sp = "\\" + rng.choice(["%o" % rng.randint(8, 255), "%03o" % rng.randint(0, 255), "x%x" % rng.randint(0, 255),
+                               "x%02X" % rng.randint(0, 255)])
+    else:
+        sp = chr(rng.choice(PLAIN))
+    return [ord(c) for c in sp]
+
+
 def values_of(items):
     vals = []
     for i, it in enumerate(items):
         if it["k"] == "explicit":
             vals.append(it["v"])
+        elif it["k"] == "char":
+            vals.append(-char_value(it["sp"]) if it["cneg"] else char_value(it["sp"]))
         elif it["k"] == "ref":
             vals.append(vals[it["ref"] - 1])
         else:
@@ -66,6 +104,8 @@ def random_enum(rng, ident):
                 items.append({"k": "implicit", "v": 0, "ref": 0})
             elif r < 0.40 and i > 0:
                 items.append({"k": "ref", "v": 0, "ref": rng.randint(1, i)})
+            elif r < 0.52 and flavour in ("small", "int", "mixed"):
+                items.append({"k": "char", "v": 0, "ref": 0, "sp": random_char(rng), "cneg": rng.random() < 0.25})
             else:
                 if flavour == "small":
                     v = rng.randint(-20, 300) if rng.random() < 0.5 else rng.randint(0, 300)
@@ -84,6 +124,8 @@ def random_enum(rng, ident):
                 items.append({"k": "explicit", "v": v, "ref": 0})
         for i, it in enumerate(items):
             it["name"] = "E%s_%s" % (ident, "ABCDEFGHIJKLMNOP"[i])
+            it.setdefault("sp", [])
+            it.setdefault("cneg", False)
         if defined(items):
             return {"id": ident, "items": items}
 
@@ -108,16 +150,19 @@ def render(decl, rng=None):
             parts.append("%s = %s" % (it["name"], literal(it["v"], rng)))
         elif it["k"] == "ref":
             parts.append("%s = %s" % (it["name"], decl["items"][it["ref"] - 1]["name"]))
+        elif it["k"] == "char":
+            parts.append("%s = %s'%s'" % (it["name"], "-" if it["cneg"] else "", "".join(map(chr, it["sp"]))))
         else:
             parts.append(it["name"])
     return "enum e%s { %s };" % (decl["id"], ", ".join(parts))
 
 
-def queries_for(decl, bits, signed, rng):
+def queries_for(decl, bits, signed, rng, vals=None):
     """values to pass to ffi.string(ffi.cast(enum, v)): every declared value and absent ones,
     all inside the range of the underlying type (a cast would wrap others)."""
     lo, hi = (-2**(bits - 1), 2**(bits - 1) - 1) if signed else (0, 2**bits - 1)
-    vals = values_of(decl["items"])
+    if vals is None:
+        vals = values_of(decl["items"])
     qs = []
     for v in vals + [v + 1 for v in vals] + [v - 1 for v in vals] + [lo, hi, 0, rng.randint(lo, hi)]:
         if lo <= v <= hi and v not in qs:
